@@ -115,7 +115,7 @@ func init() {
 		Technique: "deterministic simulation on a scripted random tape: seeded search over bounds x boundary tapes (range, consumption, memorylessness after rejection), with exact counting over all 2^32 raw words for seed-chosen and escalated bounds as adjudicator",
 		Rule:      "case = one bounded draw (bound n, tape of raw 32-bit words); distinct by hash of (n, tape); non-trivial = n >= 2. Exact counts: one case per (bound, 2^32 words), reported under exact_counts",
 		Assumptions: []string{"the raw word is the 4 bytes read from crypto/rand.Reader (go1.23.5: rand.Read = io.ReadFull(Reader, b))", "exact counts are exhaustive over the raw word only for the bounds listed in exact_counts; all other bounds rest on the seeded boundary search"},
-		Episodes:    map[string]int{"quick": 4000, "thorough": 80000},
+		Episodes:    map[string]int{"quick": 4000, "thorough": 800000},
 		TwiceEvery:  11,
 		Real:        []string{"spg.randomUint32n / randomUint32 (through the verif-tagged export)", "crypto/rand.Read, io.ReadFull (std)"},
 		Simulated:   []string{"crypto/rand.Reader (scripted tape of raw words)"},
@@ -618,7 +618,7 @@ func c01Exact(c *Ctx, tier string, seed uint64) {
 			{62, "letters+digits"}, {10, "digits"}, {3, "three"}, {2, "coin"}, {7, "digits without ambiguous"},
 		}
 		jobs = append(jobs, fixed...)
-		for len(jobs) < 24 {
+		for len(jobs) < 40 {
 			n := genBound(r)
 			if n < 2 {
 				continue
